@@ -57,9 +57,10 @@ Theorem overflow_is_error :
        v <= FLOW_CONTROL_MAX_WINDOW /\ init_win c' = v /\ cwin c' = cwin c /\
        map sid (streams c') = map sid (streams c) /\
        map swin (streams c') = map (fun x => swin x + (v - init_win c)) (streams c)
-     | (_, GoAway _) =>
+     | (_, GoAway FlowControlError) =>
        FLOW_CONTROL_MAX_WINDOW < v \/
        exists x, In x (streams c) /\ (I32_MAX < swin x + (v - init_win c) \/ swin x + (v - init_win c) < I32_MIN)
+     | (_, GoAway ProtocolError) => False
      | (_, RstStream _ _) => False
      end).
 Proof.
